@@ -86,7 +86,7 @@ class CHECK(core.Check):
     N_QUICK = 1200
     N_THOROUGH = 30000
     N_SEARCH = 3000
-    RULE = ("a real tcp Client (bare), TcpClientStack over it, or http Patron over it (non-TLS), each built in one of three documented ways (clock and connector/handler given; neither given, the object makes its own; reconnectable set by attribute) and driven through the object's OWN clock (client.store / stack.stamper / patron.store), reconnect timeout in {0, <0, "
+    RULE = ("a real tcp Client (bare), TcpClientStack over it, or http Patron over it (non-TLS), each built in one of the documented ways (clock and connector/handler given; neither given, the object makes its own; reconnectable set by attribute; Patron with a ready connector and no store) and driven through the object's OWN clock (client.store / stack.stamper / patron.store), reconnect timeout in {0, <0, "
             "100..2048 ticks}, reconnectable or not, optional SSE retry for the Patron; explicit phase: 0..25 calls "
             "(serviceConnect / stack.serviceConnect / Patron.serviceAll with the connect_ex answer drawn from 9 errnos, clock "
             "advances, connection loss detected by receive (closed or reset), owner close/reopen); then, in ~60% of cases, a "
@@ -176,7 +176,7 @@ class CHECK(core.Check):
         else:
             pre = self._pre(rng, kind, rng.choice(["closed", "reset", "never", "ownerclose"]))
         case = {"kind": kind, "timeout": T, "rec": rec, "retry": retry, "pre": pre, "loss": rng.choice(["closed", "reset"]),
-                "build": rng.choice(["given", "own", "attr"])}
+                "build": rng.choice(["given", "own", "attr", "conn"] if kind == "patron" else ["given", "own", "attr"])}
         if rng.random() < 0.6:
             k = rng.choice([1, 2, 2, 3, 4])
             case["listen"] = {"k": k, "dts": self._dts(rng, T, k, rng.randrange(4, 31))}
@@ -200,7 +200,8 @@ class CHECK(core.Check):
             pre = {"closed": [svc + "0", "A500", "L"], "never": [], "refused": [svc + "111", "A10", svc + "111"],
                    "ownerclose": [svc + "0", "c"]}[lose]
             yield {"kind": kind, "timeout": T, "rec": rec, "retry": None, "pre": pre, "loss": "closed",
-                   "listen": {"k": k, "dts": [d] * 12}, "build": ["given", "own", "attr"][(k + d // 50) % 3]}
+                   "listen": {"k": k, "dts": [d] * 12},
+                   "build": (["given", "own", "attr", "conn"] if kind == "patron" else ["given", "own", "attr"])[(k + d // 50) % (4 if kind == "patron" else 3)]}
 
     # ---- implementation
     def impl(self, case):
@@ -248,6 +249,9 @@ class CHECK(core.Check):
                 elif build == "attr":                    # store given, connector created by the patron
                     patron = hclienting.Patron(hostname=SRV_HA[0], port=SRV_HA[1], store=Stamper(stamp=0.0), timeout=T)
                     patron.connector.reconnectable = rec
+                elif build == "conn":                    # ready-made connector, no store: the patron must run on its clock
+                    patron = hclienting.Patron(
+                        connector=clienting.Client(ha=SRV_HA, store=Stamper(stamp=0.0), timeout=T, reconnectable=rec))
                 else:
                     st = Stamper(stamp=0.0)
                     patron = hclienting.Patron(
